@@ -67,6 +67,15 @@ def check_anim_cover(ctx, f: FuncInfo, subject: str, rule="READ-COVER"):
   key = f"{f.qualname}|animation steps on every property the predicate reads count"
   if not reads:
     raise AnalysisError(f"{f.qualname}: reads no specified style of `{subject}` (anchor changed)")
+  if not loops:
+    # other idiom: `if <any step exists>: return True` (len(list(...)) > 0, any(...), next(..., None) is not None)
+    tests = [n for n in own_nodes(f.node) if isinstance(n, ast.If) and f"{subject}.iter_animation_steps()" in unparse(n.test)]
+    if len(tests) == 1 and "style_property" not in unparse(tests[0].test) and isinstance(tests[0].body[0], ast.Return) \
+        and isinstance(tests[0].body[0].value, ast.Constant) and tests[0].body[0].value.value is True:
+      ctx.ok(rule, key, ctx.where(f.module, tests[0]), f"any animation step counts (`{short(tests[0].test, 60)}`); specified reads: {sorted(reads)}")
+      return
+    if tests:
+      raise AnalysisError(f"{f.qualname}: the test `{short(tests[0].test, 70)}` on the animation steps was not recognised (idiom)")
   if len(loops) != 1:
     ctx.bad(rule, key, ctx.where(f.module, f.node), f"{f.short} reads the specified {sorted(reads)} of `{subject}` but does not look at its animation steps (exactly one loop over {subject}.iter_animation_steps() expected, found {len(loops)})")
     return
@@ -281,3 +290,35 @@ def check_decisions_read_computed(ctx, f: FuncInfo, source_names: typing.Set[str
                       f"`{short(node.test, 90)}` decides from `{recv}`, the source element: after style computation the decision must read the computed value "
                       f"(animation, inheritance and initial values are otherwise ignored)")
   return n
+
+
+# ---------------------------------------------------------------------------------------
+# ORD-preorder
+# ---------------------------------------------------------------------------------------
+
+def check_preorder(ctx, f: FuncInfo, rule="ORD-preorder"):
+  """A recursive per-element step that reads the *parent's* style state and writes the element's
+  own must finish with the element before it descends: the children read this element as their
+  parent.  (Post-order would let a child see the parent's not-yet-filtered state.)"""
+  ctx.unit(f.module)
+  elem = next((p for p in f.params if p not in ("self", "cls")), None)
+  if elem is None:
+    return 0
+  rec = [c for c in own_nodes(f.node) if isinstance(c, ast.Call) and unparse(c.func) in (f"self.{f.name}", f"cls.{f.name}", f.name)]
+  reads_parent = any(isinstance(c, ast.Call) and isinstance(c.func, ast.Attribute) and c.func.attr == "parent" and unparse(c.func.value) == elem for c in own_nodes(f.node))
+  writes = [c for c in own_nodes(f.node) if isinstance(c, ast.Call) and isinstance(c.func, ast.Attribute) and c.func.attr in ("set_style", "remove_style") and unparse(c.func.value) == elem]
+  if not rec or not reads_parent or not writes:
+    return 0
+
+  def top(n):
+    for i, st in enumerate(f.node.body):
+      if any(x is n for x in ast.walk(st)):
+        return i
+    return -1
+  first_rec = min(top(c) for c in rec)
+  late = [w for w in writes if top(w) >= first_rec]
+  ctx.check(not late, rule, f"{f.qualname}|the element is finished before its children are visited", ctx.where(f.module, rec[0]),
+            f"all {len(writes)} style writes on `{elem}` precede the recursion",
+            f"{f.short} reads `{elem}.parent()`'s styles and writes `{elem}`'s own, but descends into the children before `{short(late[0], 50) if late else ''}`: "
+            f"the children see a parent that has not been processed yet")
+  return 1
